@@ -10,7 +10,48 @@ TRUST = ("TLC 1.8 + SANY; Num.java (IEEE double arithmetic behind module Num); C
          "CPython/numpy; the harness's projection functions (public attributes); single-threaded use. ")
 
 # pid -> (text, note, technique, design_ref)
+PROD = "TLA+ relation spec (self-composition) + TLC validation of product traces of two real executions"
 CHECKS = {
+    "C01": ("Lifecycle.tla states the contract (state alphabet, total / since rules incl. the automatic restart after a drift, no alarm before the "
+            "documented warm-up, recommendation range and its clearing) with the per-detector table as a variable. Every detector module refines it "
+            "(PROPERTY LCSpec in the MC_ configurations of DDM, EDDM, STEPD, ADWIN, CUSUM, PageHinkley, LFR, KdqDetector, HDM, PCACD - checked by TLC "
+            "for all input sequences up to each module's bound). Conformance: lifecycle traces of all 15 real detector classes (several drifts back to "
+            "back, user resets, refused calls, set_reference) are validated by Trace_Lifecycle, which instantiates Lifecycle with the class's table "
+            "and computes the warm-up predicate from its own counters, the documented parameters and harness-counted epoch facts.",
+            TRUST + "epoch facts (errors / test batches of the epoch, labels given, window length before a cut) are counted by the harness from the inputs it fed.",
+            "TLA+ spec + TLC refinement checking + TLC trace validation of recorded executions", "5/C01"),
+    "C02": ("Model level: in MC_DDM / MC_EDDM / MC_STEPD / MC_PageHinkley / MC_Cusum a second instance is re-initialised after every drift "
+            "(CUSUM: with the documented carry-over) and TLC checks TwinAgree for all input sequences in the bound. Code level: Product.tla with "
+            "relation EqualShifted and its harness protocol (a NEW real twin after every reported drift, offset = items seen so far) validates "
+            "whole-history runs of DDM, EDDM, STEPD, PageHinkley, CUSUM, KdqTreeStreaming, KdqTreeBatch, HDDDM, CDBD, NNDVI against fresh real twins "
+            "per epoch under one numpy seed per step: state, counters, recs (shifted), every numeric public output; plus set_reference at an "
+            "arbitrary point (after a drift and in a quiet epoch) against a new detector on that reference.",
+            TRUST + "the documented carry-over is supplied to the twin by the harness.",
+            PROD + " + TLC model checking of restarted twins", "5/C02"),
+    "C15": ("Ownership.tla is the protocol model (caller buffers with versions, callee Copy vs the deviation Alias; TLC: without Alias no output "
+            "ever diverges, with Alias every divergence stems from a live reference). Code level: for all 14 update/set_reference detectors and the 8 "
+            "injectors a private-copy run is compared (Product / Equal) with a run in which the caller's arrays / DataFrames (C order, F order, strided "
+            "view, single- and mixed-dtype DataFrame) are overwritten with garbage after EVERY call; the harness also digests the caller's objects "
+            "before / after each call, checks injector results are new objects of the same type sharing no memory, and dict arguments unchanged.",
+            TRUST + "MD3 (which deep-copies its DataFrames) is not driven here.",
+            PROD + " + TLC model checking of the protocol", "5/C15"),
+    "C16": ("The functional specifications of DDM, EDDM, STEPD, ADWIN take the agreement bit (LFR: the confusion cell) as their only input. "
+            "Conformance: each outcome sequence is driven through the real DDM / EDDM / STEPD / ADWINAccuracy under 9 label encodings (other ints, "
+            "strings, bools, floats, three classes, 0-d / 1-d arrays, lists, fresh random classes per sample) with junk in X, and every such trace "
+            "must be accepted by the SAME Trace_<M> behaviour; LFR under 4 encodings of its 0/1 cells against Trace_LFR; and for ADWIN, CUSUM, "
+            "PageHinkley, KdqTreeStreaming/Batch, HDDDM, CDBD, NNDVI, PCACD a run with junk y_true / y_pred against the plain run (Product / Equal).",
+            TRUST, "TLC trace validation against the functional TLA+ specs + product traces", "5/C16"),
+    "C17": ("Product.tla relations FirstDriftNotLater and WarningsSuperset (sanity-checked by TLC on MC_Product). Code level: for 12 families "
+            "(ADWIN delta, CUSUM / PageHinkley threshold, DDM drift_scale, EDDM drift_thresh, STEPD alpha_drift, LFR detect_level, kdq-tree "
+            "streaming / batch and NN-DVI alpha, HDDDM / CDBD significance) two real runs with an ordered pair of thresholds see the same history "
+            "under the same seed before every step and TLC validates that the stricter run never drifts first; for DDM, EDDM, STEPD, LFR warning "
+            "thresholds: same drifts and warnings preserved. Role-swapped pairs must be refused.",
+            TRUST, PROD, "5/C17"),
+    "C18": ("HDM.tla, KdqTree.tla and NNSP.tla use a batch only through multiset-valued operators (bin counts, leaf counts, sorted distinct "
+            "union); their MC configurations are re-run here. Code level: original vs row-permuted reference and test batches for HDDDM / CDBD "
+            "(detect_batch 3: complete outputs; detect_batch 2: distances while the decisions agree), KdqTreeBatch and NNDVI (complete outputs "
+            "under the same seed), validated by Product (Equal / EqualWhileAgree).",
+            TRUST, PROD, "5/C18"),
     "C03": ("TLC explores Adwin.tla (window as the sequence of retained inputs + buckets-per-row layout; compress, scheduled shrink by "
             "epsilon-cut at bucket boundaries) for ALL 0/10 input sequences to depth 11/14 over 144 configurations (max_buckets 1-2, "
             "both bounds): layout, grow-or-cut, no-cut-left, recs = retained window, lifecycle refinement. Conformance: all 2^9/2^12 "
